@@ -1,5 +1,4 @@
-(* C20 -- lemmas. *)
-From Coq Require Import ZArith Bool List Lia.
-From SV Require Import Common.GoInt C20.Model C20.Spec.
-Import ListNotations.
-Open Scope Z_scope.
+(* C20 -- lemmas are in ProofsKinds.v (scalar kinds), ProofsWf.v (typed invariant),
+   ProofsFreeze.v (frozen flags, refutation witnesses), ProofsSep.v (freeze
+   soundness without sharing); this file re-exports them. *)
+From SV Require Export C20.ProofsKinds C20.ProofsWf C20.ProofsFreeze C20.ProofsSep.
